@@ -255,6 +255,106 @@ Proof. reflexivity. Qed.
 Theorem cconj_spec : forall a b : Z, cconj ZOps (a, b) = (a, - b).
 Proof. intros. unfold cconj; simpl. f_equal. Qed.
 
+(** ** structure tests: what a passing [kind_check] means *)
+Lemma forallb_seq : forall (f : nat -> bool) n,
+  forallb f (seq 0 n) = true <-> (forall i, (i < n)%nat -> f i = true).
+Proof.
+  intros f n. rewrite forallb_forall. split.
+  - intros Hf i Hi. apply Hf. apply in_seq. lia.
+  - intros Hf i Hi. apply in_seq in Hi. apply Hf. lia.
+Qed.
+
+Theorem all_entries_spec : forall (P : nat -> nat -> CZ -> bool) (M : list (list CZ)),
+  all_entries ZOps P M = true <->
+  (forall i j, (i < length M)%nat -> (j < ncols M)%nat -> P i j (entry (c0 ZOps) M i j) = true).
+Proof.
+  intros P M. unfold all_entries. rewrite forallb_seq. split.
+  - intros Hf i j Hi Hj. specialize (Hf i Hi). rewrite forallb_seq in Hf. apply Hf. exact Hj.
+  - intros Hf i Hi. rewrite forallb_seq. intros j Hj. apply Hf; assumption.
+Qed.
+
+Lemma czero_spec : forall x : CZ, czero ZOps x = true <-> x = (0, 0).
+Proof. intros. unfold czero. apply ceqb_spec. Qed.
+
+(** upper triangular: every entry strictly below the diagonal is exactly 0 *)
+Theorem is_upper_spec : forall k (M : list (list CZ)),
+  kind_check ZOps KUpper k M = true ->
+  forall i j, (i < length M)%nat -> (j < ncols M)%nat -> (j < i)%nat -> entry (c0 ZOps) M i j = (0, 0).
+Proof.
+  intros k M Hk i j Hi Hj Hlt. simpl in Hk. rewrite all_entries_spec in Hk.
+  specialize (Hk i j Hi Hj). apply orb_true_iff in Hk. destruct Hk as [Hk|Hk].
+  - apply Nat.leb_le in Hk. lia.
+  - apply czero_spec. exact Hk.
+Qed.
+
+Theorem is_lower_spec : forall k (M : list (list CZ)),
+  kind_check ZOps KLower k M = true ->
+  forall i j, (i < length M)%nat -> (j < ncols M)%nat -> (i < j)%nat -> entry (c0 ZOps) M i j = (0, 0).
+Proof.
+  intros k M Hk i j Hi Hj Hlt. simpl in Hk. rewrite all_entries_spec in Hk.
+  specialize (Hk i j Hi Hj). apply orb_true_iff in Hk. destruct Hk as [Hk|Hk].
+  - apply Nat.leb_le in Hk. lia.
+  - apply czero_spec. exact Hk.
+Qed.
+
+(** unit lower triangular at scale 2^-k: square, zero above the diagonal, diagonal entries = 2^k (i.e. 1) *)
+Theorem is_unit_lower_spec : forall k (M : list (list CZ)),
+  kind_check ZOps KUnitLower k M = true ->
+  length M = ncols M /\
+  forall i j, (i < length M)%nat -> (j < ncols M)%nat ->
+    ((i < j)%nat -> entry (c0 ZOps) M i j = (0, 0)) /\
+    (i = j -> entry (c0 ZOps) M i j = (Z.shiftl 1 k, 0)).
+Proof.
+  intros k M Hk. simpl in Hk. apply andb_true_iff in Hk. destruct Hk as [Hsq Hk].
+  split; [apply Nat.eqb_eq; exact Hsq|].
+  rewrite all_entries_spec in Hk. intros i j Hi Hj. specialize (Hk i j Hi Hj). split.
+  - intros Hlt. destruct (Nat.ltb j i) eqn:E1; [apply Nat.ltb_lt in E1; lia|].
+    destruct (Nat.eqb i j) eqn:E2; [apply Nat.eqb_eq in E2; lia|]. apply czero_spec. exact Hk.
+  - intros ->. rewrite Nat.ltb_irrefl, Nat.eqb_refl in Hk. apply ceqb_spec in Hk. exact Hk.
+Qed.
+
+(** permutation matrix at scale 2^-k: square, entries 0 or 2^k, every row and every column sums to 2^k *)
+Theorem is_perm_matrix_spec : forall k (M : list (list CZ)),
+  kind_check ZOps KPerm k M = true ->
+  length M = ncols M /\
+  (forall i j, (i < length M)%nat -> (j < ncols M)%nat ->
+     entry (c0 ZOps) M i j = (0, 0) \/ entry (c0 ZOps) M i j = (Z.shiftl 1 k, 0)) /\
+  (forall r, In r M -> csumZ r = (Z.shiftl 1 k, 0)) /\
+  (forall r, In r (mtransp (c0 ZOps) M) -> csumZ r = (Z.shiftl 1 k, 0)).
+Proof.
+  intros k M Hk. simpl in Hk.
+  apply andb_true_iff in Hk. destruct Hk as [Hk Hcols].
+  apply andb_true_iff in Hk. destruct Hk as [Hk Hrows].
+  apply andb_true_iff in Hk. destruct Hk as [Hsq Hent].
+  split; [apply Nat.eqb_eq; exact Hsq|]. split; [|split].
+  - rewrite all_entries_spec in Hent. intros i j Hi Hj. specialize (Hent i j Hi Hj).
+    apply orb_true_iff in Hent. destruct Hent as [Hz|Ho].
+    + left. apply czero_spec. exact Hz.
+    + right. apply ceqb_spec. exact Ho.
+  - rewrite forallb_forall in Hrows. intros r Hr. apply ceqb_spec. apply Hrows. exact Hr.
+  - rewrite forallb_forall in Hcols. intros r Hr. apply ceqb_spec. apply Hcols. exact Hr.
+Qed.
+
+(** positive real diagonal *)
+Theorem pos_diag_spec : forall k (M : list (list CZ)),
+  kind_check ZOps KPosDiag k M = true ->
+  forall i, (i < length M)%nat -> (i < ncols M)%nat ->
+  snd (entry (c0 ZOps) M i i) = 0 /\ 0 < fst (entry (c0 ZOps) M i i).
+Proof.
+  intros k M Hk i Hi Hj. simpl in Hk. rewrite all_entries_spec in Hk. specialize (Hk i i Hi Hj).
+  rewrite Nat.eqb_refl in Hk. simpl in Hk. apply andb_true_iff in Hk. destruct Hk as [H1 H2].
+  split; [apply Z.eqb_eq; exact H1|]. unfold tltb in H2. simpl in H2.
+  apply negb_true_iff in H2. apply Z.leb_gt in H2. exact H2.
+Qed.
+
+(** [orthonormal_le]: the statement certified for Q is  ||Q^H Q - I||_F^2 <= 4^(10-p); with the checker's
+    semantics this is the integer inequality below (frob2 at scale 2k against 2^(2(10-p))) *)
+Theorem frob_le_pow2_spec : forall (F k e : Z), 0 <= k -> 0 <= e ->
+  (sle ZOps (F, 2 * k) (1, e) = true <-> F * 2 ^ e <= 2 ^ (2 * k)).
+Proof.
+  intros F k e Hk He. rewrite sle_spec by lia. rewrite Z.mul_1_l. reflexivity.
+Qed.
+
 Print Assumptions frob2_spec.
 Print Assumptions frob2_entries.
 Print Assumptions sq_le_iff.
@@ -272,3 +372,9 @@ Print Assumptions entry_mtransp.
 Print Assumptions entry_madd.
 Print Assumptions entry_msub.
 Print Assumptions check_hom.
+Print Assumptions all_entries_spec.
+Print Assumptions is_upper_spec.
+Print Assumptions is_unit_lower_spec.
+Print Assumptions is_perm_matrix_spec.
+Print Assumptions pos_diag_spec.
+Print Assumptions frob_le_pow2_spec.
